@@ -23,7 +23,7 @@ ASSUMPTIONS = ["entry names are not reused for both a class and a value", "after
 SIZES = {"quick": dict(budget_s=45, batch=80), "thorough": dict(budget_s=600, batch=150)}
 FLOORS = {"nontrivial": 0.4}
 
-CLASSES = ["A", "B", "C", "D"]
+CLASSES = ["A", "B", "C", "D", "E", "F", "G", "H"]
 FIELDS = ["x", "y", "z"]
 
 
@@ -40,7 +40,7 @@ def _value(draw, depth=2):
 
 
 @st.composite
-def _body(draw, depth, known=()):
+def _body(draw, depth, known=(), avoid=()):
     """known: class names visible from here (own scope so far + enclosing scopes) - bases are mostly drawn from them"""
     out = []
     known = list(known)
@@ -66,13 +66,15 @@ def _body(draw, depth, known=()):
             out.append(["append", "arr", [draw(_value(0)) for _ in range(draw(st.integers(0, 2)))]])
         elif k == "class":
             c = draw(st.sampled_from(CLASSES))
-            out.append(["class", c, None, draw(_body(depth - 1, known))])
+            out.append(["class", c, None, draw(_body(depth - 1, known, avoid))])
             known.append(c)
         elif k == "classbase":
-            c = draw(st.sampled_from(CLASSES))
+            fresh = [x for x in CLASSES if x not in known and x not in avoid]
+            # mostly a class that is new here: re-opening a class with another base is where cycles (asserted only for termination) come from
+            c = draw(st.sampled_from(fresh)) if fresh and draw(st.integers(0, 4)) else draw(st.sampled_from(CLASSES))
             pool = [x for x in known if x != c] or CLASSES
             base = draw(st.sampled_from(pool + ["Missing"])) if draw(st.integers(0, 9)) else draw(st.sampled_from(CLASSES))
-            out.append(["class", c, base, draw(_body(depth - 1, known))])
+            out.append(["class", c, base, draw(_body(depth - 1, known, avoid))])
             known.append(c)
         elif k == "selfbase":
             c = draw(st.sampled_from(CLASSES))
@@ -80,7 +82,7 @@ def _body(draw, depth, known=()):
             known.append(c)
         elif k == "fwd":
             c = draw(st.sampled_from(CLASSES))
-            out.append(["fwd", c, draw(st.sampled_from([None] + CLASSES))])
+            out.append(["fwd", c, draw(st.sampled_from([None, None] + [x for x in known if x != c][:3]))])
             known.append(c)
         elif k == "delete":
             cand = [n for n in CLASSES + FIELDS + ["arr"] if n not in own]
@@ -95,8 +97,18 @@ def _body(draw, depth, known=()):
 def _cases(draw):
     n = draw(st.integers(1, 3))
     texts = []
+    used = set()
+
+    def names(b):
+        for s_ in b:
+            if s_[0] in ("class", "fwd"):
+                used.add(s_[1])
+                if s_[0] == "class":
+                    names(s_[3])
     for _ in range(n):
-        body = [s for s in draw(_body(3)) if s[0] in ("class", "fwd", "delete")]     # top level: classes and deletes only
+        # a later text mostly derives new classes from the earlier ones; re-opening an earlier class with another base stays possible but rare
+        body = [s for s in draw(_body(3, avoid=tuple(sorted(used)))) if s[0] in ("class", "fwd", "delete")]     # top level: classes and deletes only
+        names(body)
         texts.append(body)
     return dict(texts=texts)
 
@@ -164,7 +176,9 @@ class Model:
     def __init__(self):
         self.root = Node("config/bin", None)
         self.labels = set()
-        self.ambiguous = False        # after a cycle attempt only acyclicity/termination is asserted
+        self.ambiguous = False        # something happened that the property does not describe (see amb)
+        self.amb = set()              # the classes it happened in: queries through them (nested in / derived from them) are not asserted
+        self._amb_lookup = False
         self.loaded = 0
         self.seen_paths = set()
 
@@ -174,6 +188,7 @@ class Model:
             if name in n.entries:
                 if n.entries[name] is None:
                     self.ambiguous = True       # a deleted name on the way to the base: not described by the property
+                    self._amb_lookup = True
                     return None
                 return n.entries[name]
             n = n.parent
@@ -204,6 +219,7 @@ class Model:
         existing = scope.entries.get(name)
         if existing is not None and existing.is_value:
             self.ambiguous = True
+            self.amb.add(scope)
             return
         if existing is None:
             node = Node(name, scope)
@@ -214,15 +230,21 @@ class Model:
             if self.path_key(node) in self.seen_paths and self.loaded_in.get(self.path_key(node)) != self.loaded:
                 self.labels.add("reopen_later_text")
         if base:
+            self._amb_lookup = False
             target = self.lookup_logical(scope, base) if not created else self.lookup_logical(scope, base)
+            if self._amb_lookup:
+                self.amb.add(node)
             if created and base == name and target is None:
                 target = None
             if target is not None and (target is node or node in self.chain(target)):
                 # the re-binding would make the relation cyclic: it must be refused (what it resolves to is not asserted)
                 self.labels.add("cycle_attempt")
                 self.ambiguous = True
+                self.amb.add(node)
+                self.amb.add(target)
             elif target is not None and target.is_value:
                 self.ambiguous = True
+                self.amb.add(node)
             else:
                 node.base = target
                 if target is None:
@@ -252,12 +274,14 @@ class Model:
                 if s[1] in scope.entries and scope.entries[s[1]] is not None:
                     # deleting an own entry: the property only speaks about hiding inherited ones
                     self.ambiguous = True
+                    self.amb.add(scope)
                 scope.entries[s[1]] = None
             elif k in ("field", "arrfield", "append"):
                 name = s[1]
                 existing = scope.entries.get(name)
                 if existing is not None and not existing.is_value:
                     self.ambiguous = True
+                    self.amb.add(scope)
                     continue
                 val = py_value(s[2]) if k == "field" else [py_value(x) for x in s[2]]
                 if k == "append":
@@ -265,6 +289,7 @@ class Model:
                     inh = self.lookup(scope.base, name) if scope.base is not None else None
                     if existing is not None:
                         self.ambiguous = True          # += on an entry the class already owns: not described by the property
+                        self.amb.add(scope)
                     if inh is not None and inh.is_value and isinstance(inh.value, list):
                         val = list(inh.value) + val
                         self.labels.add("append_inherited")
@@ -280,6 +305,16 @@ class Model:
         if self.loaded_in is None:
             self.loaded_in = {}
         self.apply(self.root, body)
+
+    def tainted(self, node):
+        """the class, a class it is nested in, or one on its base chain (or nested in a tainted one) saw something the property does not describe"""
+        for n in self.chain(node):
+            p = n
+            while p is not None:
+                if p in self.amb:
+                    return True
+                p = p.parent
+        return False
 
     def all_classes(self):
         out = []
@@ -345,12 +380,20 @@ def check(case, env):
     v = None
     if T is None or any(isinstance(x, float) and x > nclasses for x in T):
         v = viol("inheritance-cyclic", ctx + "walking inheritsFrom does not reach null within %d steps: %s" % (nclasses, T))
-    if v is None and not m.ambiguous:
-        # ---- full comparison with the model
+    asserted = skipped = 0
+    if v is None:
+        # ---- full comparison with the model (queries through classes the property does not describe are left out)
         queries = []
         for c in [m.root] + classes[:10]:
+            if m.tainted(c):
+                skipped += 1
+                continue
             for name in CLASSES + FIELDS + ["arr", "nope"]:
+                e = m.lookup(c, name)
+                if e is not None and not e.is_value and m.tainted(e):
+                    continue
                 queries.append((c, name))
+        asserted = len(queries)
         lines = ["T = [];"]
         for c, name in queries:
             p = _path_sqf(m.path_of(c))
@@ -396,7 +439,7 @@ def check(case, env):
                     break
     nontrivial = bool(labs & {"inherited_lookup", "reopen_later_text", "cycle_attempt", "delete", "append_inherited"})
     if m.ambiguous:
-        labs.add("only_termination_asserted")
+        labs.add("partly_asserted" if asserted > 15 else "only_termination_asserted")
     if nontrivial:
         labs.add("nontrivial")
     return Result(nontrivial=nontrivial, labels=sorted(labs), violation=v)
